@@ -4,6 +4,7 @@ which reference-oracle families belong to the property, evidence level and trust
 SUITES = {
     # suite -> harness generator parameters per tier
     "C": {"quick": ["--cases", "500"], "thorough": ["--cases", "6000"]},
+    "E": {"quick": ["--cases", "30", "--max-ops", "60"], "thorough": ["--cases", "400", "--max-ops", "120"], "timeout": 7200},
     "F": {"quick": ["--cases", "60"], "thorough": ["--cases", "1500"]},
     "P": {"quick": ["--cases", "300", "--max-ops", "7"], "thorough": ["--cases", "3000", "--max-ops", "14"]},
     "T": {"quick": ["--cases", "150", "--max-ops", "60"], "thorough": ["--cases", "1500", "--max-ops", "120"]},
@@ -27,9 +28,21 @@ PROPS = {
                     "base64 crate STANDARD_NO_PAD and nada 0.2.2 are modelled from their sources and validated by correspondence"],
         "assumptions": ["RPC-level equality of transactions/receipts for hex vs base64 submissions is covered at the field-selection level here (select_bytes) and end-to-end by the engine suite"],
     },
+    "C16": {
+        "lean": ["Brc20.Props.C16"],
+        "suites": ["C", "E"],
+        "oracle_families": ["gas-arith", "estimate"],
+        "mismatch_filter": {"C": "^gas$", "E": "^$"},
+        "level": "proof",
+        "trusted": ["revm gas accounting (parameter): gasUsed <= gasLimit, a run fails below its need and succeeds above it for programs that do not inspect remaining gas",
+                    "the recorded simulations of eth_estimateGas (EVM recorder hook) are the loop's probes"],
+        "assumptions": ["sufficiency is proved for monotone success predicates (programs not inspecting gas/time/randomness), as the property states"],
+    },
     "C14": {
         "lean": ["Brc20.Props.C14"],
         "suites": ["C"],
+        "oracle_families": ["lossless", "self-delimiting", "reencode", "order", "json"],
+        "mismatch_filter": {"C": "^(rt|rtj|dec|ord)$"},
         "level": "proof",
         "trusted": ["translator tools/gen_codecs.py (field sequences of every impl Encode / impl Decode)",
                     "serde derive + ruint hex (JSON part: validated by re-serialisation on the real code only, not modelled)"],
